@@ -330,3 +330,20 @@ v('c07-make-complement-arm', ['C07'], RX, "            BaseRegLan::Complement(x)
 v('c07-new-order', ['C07'], RX, "            id2re: vec![sigma, not_sigma, empty, sigma_star, epsilon, sigma_plus],", "            id2re: vec![sigma, not_sigma, empty, epsilon, sigma_star, sigma_plus],", 'C07.R4/ReManager::new')
 v('c07-bypass-store', ['C07'], RX, "    pub fn char_set(&mut self, set: CharSet) -> RegLan {\n        self.make(BaseRegLan::Range(set))", "    pub fn char_set(&mut self, set: CharSet) -> RegLan {\n        self.store.make(BaseRegLan::Range(set))", 'C07.R1')
 v('c07-sort-after-read', ['C07'], RX, "        v.sort();\n        v.dedup();\n        if contains(v, top) {", "        if contains(v, top) {\n            v.sort();\n            v.dedup();", 'C07.R5')
+
+# ---- C14
+CTF = 'src/compact_tables.rs'
+v('c14-default-unmapped', ['C14'], AUF, "let new_default = self.default_successor.map(|i| remap.new_id[i]);", "let new_default = self.default_successor;", 'C14.R1/State::remap_nodes')
+v('c14-successor-unmapped', ['C14'], AUF, "            *s = remap.new_id[*s];", "            *s = remap.old_id[*s];", 'C14.R1/State::remap_nodes')
+v('c14-initial-unmapped', ['C14'], AUF, "        self.initial_state = remap.new_id[i];", "        self.initial_state = i;", 'C14.R1/Automaton::remap_nodes')
+v('c14-edge-iter-shift', ['C14'], AUF, "            let next_id = source.successor[i];\n            Some((ClassId::Interval(i), &self.state_array[next_id]))", "            let next_id = source.successor[i];\n            Some((ClassId::Interval(i + 1), &self.state_array[next_id]))", 'C14.R3/EdgeIterator')
+v('c14-resize-sentinel', ['C14'], CTF, "        self.check.resize(new_size, self.num_states);", "        self.check.resize(new_size, 0);", 'C14.R5/resize')
+v('c14-eval-swap', ['C14'], CTF, "        let k = self.base[s as usize] as usize + c as usize;", "        let k = self.base[c as usize] as usize + s as usize;", 'C14.R5/eval')
+v('c14-reach-seed', ['C14'], AUF, "        queue.push(self.initial_state);\n        while let Some(i) = queue.pop() {\n            reachable.push(i);", "        queue.push(0);\n        while let Some(i) = queue.pop() {\n            reachable.push(i);", 'C14.R2')
+v('c14-pair-index', ['C14'], AUF, ".map(|(i, &c)| (i as u32, self.next(s, c).id as u32))", ".map(|(i, &c)| (i as u32 + 1, self.next(s, c).id as u32))", 'C14.R4')
+v('c14-filter-inverted', ['C14'], AUF, ".filter(|(_, &c)| !s.char_maps_to_default(c))", ".filter(|(_, &c)| s.char_maps_to_default(c))", 'C14.R4')
+v('c14-final-iter', ['C14'], AUF, "            if a[i].is_final {\n                self.index = i + 1;", "            if a[i].is_final {\n                self.index = i;", 'C14.R3/FinalStateIterator')
+v('c14-store-owner', ['C14'], CTF, "            self.check[k] = i;\n            self.value[k] = *v;", "            self.check[k] = b;\n            self.value[k] = *v;", 'C14.R5/store_successors')
+v('c14-from-array', ['C14'], AUF, "            new_id[node_id] = i;\n            old_id[i] = node_id;", "            new_id[i] = node_id;\n            old_id[i] = node_id;", 'C14.R2/from_array')
+v('c14-final-count', ['C14'], AUF, "            if s.is_final {\n                debug_assert!(new_states[i].is_final);\n                self.num_final_states += 1;", "            if !s.is_final {\n                self.num_final_states += 1;", 'C14.R1/Automaton::remap_nodes')
+v('c14-conflict-sentinel', ['C14'], CTF, ".any(|(c, _)| self.check[b + *c as usize] != self.num_states)", ".any(|(c, _)| self.check[b + *c as usize] != 0)", 'C14.R5/base_conflicts')
